@@ -87,7 +87,7 @@ def sample_events(files, mode, n=3):
     return []
 
 
-USES_SINGLE = ("C05", "C11", "C12")
+USES_SINGLE = ("C05", "C11", "C12", "C13", "C15")
 
 
 def feed_single(rep, tier):
